@@ -27,7 +27,7 @@ Definition run_env (c : cfg) (r : kenv) : jv :=
        (if wf_env r then JC "Val" [jv_dict (spec_env (e_items r))] else jnone) ].
 
 Definition link_view (l : link_res) : pview :=
-  {| v_pdir := true; v_stat := Some false; v_comm := bs "x"; v_cmdline := FData []; v_environ := FData [];
+  {| v_stat := Some false; v_stat_denied := false; v_comm := bs "x"; v_cmdline := FData []; v_environ := FData [];
      v_exe := l; v_cwd := l; v_paths := [] |}.
 Definition run_link (r : klink) : jv :=
   JL [ JB (k_link r);
@@ -48,6 +48,16 @@ Definition run_name (c : cfg) (r : kproc) : jv :=
   JL [ JB (k_cmdline (p_cmd r));
        jv_outcome JB (fe_name c (view_proc r));
        (if wf_proc r then JC "Val" [JB (spec_name r)] else jnone);
+       jv_outcome jv_list (pl_cmdline c (view_proc r)) ].
+
+Definition run_zombie (c : cfg) (comm : bytes) (esrch : bool) : jv :=
+  JL [ JL (map jv_res (run_ops c None (zombie_ops (view_zombie comm esrch))));
+       JL (map jv_res (spec_zombie comm)) ].
+
+Definition run_hist (c : cfg) (r : kproc) : jv :=
+  JL [ JL [JB (k_cmdline (p_cmd r)); k_exe_link r];
+       JL (map jv_res (run_ops c None (hist_ops (view_proc r))));
+       (if wf_proc r then JL (map jv_res (spec_hist r)) else jnone);
        jv_outcome jv_list (pl_cmdline c (view_proc r)) ].
 
 (* arbitrary (possibly malformed) views and call sequences: model answer only *)
